@@ -357,7 +357,8 @@ so the recovery's closing flush writes nothing either. -/
 theorem crash_after_flush_is_last_flush (x : DState) (hi : x.intents = [])
     (hc : ∀ p ∈ x.s.docs, p.1 ≤ x.checkpoint) :
     let y := (dstep x .crash).1
-    y.s.ids = x.dIds ∧ y.s.ix = { x.dIx with bt := reorder x.dIx.bt } ∧ y.s.maxId = x.s.savedMax ∧
+    y.s = { x.s with ids := x.dIds, ix := { x.dIx with bt := reorder x.dIx.bt }, maxId := x.s.savedMax,
+                     dirty := false, poisoned := false } ∧
     y.dIds = x.dIds ∧ y.dIx = x.dIx ∧ y.checkpoint = x.checkpoint := by
   have hf : ((sortAsc (x.s.docs.map (·.1))).filter (fun i => decide (x.checkpoint < i))) = [] := by
     rw [List.filter_eq_nil_iff]
@@ -369,6 +370,47 @@ theorem crash_after_flush_is_last_flush (x : DState) (hi : x.intents = [])
   simp only [dstep, dstepWith, recoverWith, codeCfg, codePhases, List.foldl_cons, List.foldl_nil, runPhase,
     crashLoad, replayWith, hi, List.isEmpty_nil, if_true, repairScan, hf, dflush, flush]
   simp
+
+theorem lookupD_isSome_of_mem (docs : List (Nat × List (Nat × FVal))) (p : Nat × List (Nat × FVal)) (h : p ∈ docs) :
+    (lookupD docs p.1).isSome = true := by
+  induction docs with
+  | nil => cases h
+  | cons q r ih =>
+    obtain ⟨i, d⟩ := q
+    unfold lookupD
+    split
+    · rfl
+    · rename_i hne
+      cases h with
+      | head => exact absurd rfl hne
+      | tail _ hm => exact ih hm
+
+/-- **A power loss right after an acknowledged flush is indistinguishable from a clean reopen**: for every
+state the collection can be in (`Inv`, so for every history) with unsaved changes, whatever intents are
+pending and wherever the checkpoint stands, `flush; power loss; open` and `flush; close; open` end in the
+same state — documents, ids, every index, allocator. -/
+theorem flush_then_crash_is_reopen (x : DState) (hi : Inv x.s) (hd : x.s.dirty = true) :
+    (dstep (dstep x (.op .flush)).1 .crash).1.s = (step x.s .reopen).1 := by
+  have hp : x.s.poisoned = false := hi.healthy
+  have hx : (dstep x (.op .flush)).1 = dflush x := by simp [dstep, dstepWith, hp]
+  rw [hx]
+  have hcp : ∀ p ∈ (dflush x).s.docs, p.1 ≤ (dflush x).checkpoint := by
+    intro p hpm
+    have h1 : (dflush x).s.docs = x.s.docs := (dflush_frame x).1
+    rw [h1] at hpm
+    have h2 := hi.ids_le _ ((hi.ids_docs _).2 (lookupD_isSome_of_mem _ p hpm))
+    simp only [dflush, hd, if_true]
+    exact Nat.le_trans h2 (Nat.le_max_right _ _)
+  have hin : (dflush x).intents = [] := by simp [dflush]
+  have h1 := (crash_after_flush_is_last_flush (dflush x) hin hcp).1
+  rw [h1]
+  simp [step, hp, flush, hd, dflush]
+
+/-- non-vacuity of `flush_then_crash_is_reopen`: a state reached by a real history (hence `Inv`, by `inv_run`)
+with unsaved changes -/
+example : let s := run (init hSchema) [.add (mkDoc 1 [1] 0 .null 1), .add (mkDoc 2 [2] 0 .null 2)]
+    Inv s ∧ s.dirty = true ∧ s.docs ≠ [] :=
+  ⟨inv_run _ _ (inv_init _), by decide, by decide⟩
 
 /-- non-vacuity: a flushed two-document state with a unique index meets the hypotheses of
 `crash_after_flush_is_last_flush`, and a crash with an intent pending is outside them -/
